@@ -27,7 +27,7 @@ var pureCallees = map[string]string{
 	"len": "builtin", "cap": "builtin", "panic": "builtin", "new": "alloc", "make": "alloc", "append": "alloc-or-fresh", "copy": "fresh-dst", "delete": "WRITE",
 	"fmt.Errorf": "pure", "fmt.Sprintf": "pure", "fmt.Sprint": "pure",
 	"math.Signbit": "pure", "math.Float32bits": "pure", "math.Float64bits": "pure", "math.Float32frombits": "pure", "math.Float64frombits": "pure",
-	"sort.Slice": "fresh-arg0", "sort.Strings": "fresh-arg0", "sort.Sort": "fresh-arg0", "sort.Ints": "fresh-arg0",
+	"sort.Slice": "fresh-arg0", "sort.SliceStable": "fresh-arg0", "sort.Strings": "fresh-arg0", "sort.Sort": "fresh-arg0", "sort.Ints": "fresh-arg0", "slices.Sort": "fresh-arg0",
 	"encoding/binary.littleEndian.PutUint32": "fresh-arg0", "encoding/binary.littleEndian.PutUint64": "fresh-arg0",
 	"encoding/binary.littleEndian.Uint32": "pure", "encoding/binary.littleEndian.Uint64": "pure",
 	core.RepoModule + "/runtime.Sov": "pure", core.RepoModule + "/runtime.Soz": "pure", core.RepoModule + "/runtime.EncodeVarint": "fresh-arg0", core.RepoModule + "/runtime.Skip": "pure",
